@@ -154,8 +154,42 @@ _accepted = st.builds(
 )
 _wild = st.builds(_compose, _ws, _scheme, _sep, _userinfo, _host, _port, _tail, _ws, _inject)
 
+def _lengthen(url: str, where: str, k: int, decoy: str) -> str:
+    """Pad one component of an accepted-shape URL to k characters: length limits and truncation (of the value itself, of
+    the cookie that carries it across the IdP round trip) act on positions, so where a cut would land matters."""
+    i = url.find("://")
+    if i < 0:
+        return url + "p" * k
+    head, rest = url[: i + 3], url[i + 3:]
+    if where == "userinfo":  # everything before the LAST '@' is userinfo for urlparse and for a browser
+        return head + "x:" + "p" * k + "@" + decoy + "@" + rest
+    if where == "userinfo_decoy_first":
+        return head + decoy + ":" + "p" * k + "@" + rest
+    if where == "path":
+        j = len(rest) if "?" not in rest and "#" not in rest else min(x for x in (rest.find("?"), rest.find("#")) if x >= 0)
+        return head + rest[:j] + "/" + "p" * k + rest[j:]
+    if where == "query":
+        return head + rest.split("#", 1)[0] + ("&" if "?" in rest else "?") + "q=" + "p" * k
+    return head + rest + "#" + "p" * k
+
+
+_long = st.builds(
+    _lengthen,
+    st.builds(
+        lambda pair, port, tail: pair[0] + "://" + pair[1] + port + tail,
+        st.sampled_from([("http", "localhost"), ("http", "127.0.0.1"), ("https", "cupola.query-farm.services"), ("http", "[::1]")]),
+        st.sampled_from(["", ":4321", ":8443"]),
+        st.sampled_from(["", "/", "/app", "/cb?x=1"]),
+    ),
+    st.sampled_from(["userinfo", "userinfo", "userinfo_decoy_first", "path", "query", "fragment"]),
+    st.one_of(st.sampled_from([100, 500, 1000, 1300, 1370, 1378, 1390, 1400, 1410, 1500, 1990, 2020, 2040, 2048, 2100, 4000]),
+              st.integers(1350, 1420), st.integers(1980, 2060)),
+    st.sampled_from(["evil.example", "evil.example", "evil.example:443", "evil.example/", "svc.example"]),
+)
+
 return_tos = st.one_of(
     st.none(),
+    _long,
     _accepted,
     _accepted,
     _accepted,
